@@ -49,7 +49,10 @@ Prog(ps) ==
       s1 == IF n >= 1 THEN <<SLet(PId("r"), ps[1].t, EParam(ps[1].n)), SLet(PId("x"), ps[1].t, EWit("E1"))>> \o Obs(ps[1].t, "r", "x") ELSE <<>>
       s2 == IF n >= 2 THEN <<SExpr(Blk(<<SLet(PId("r"), ps[2].t, ECall(CFn("usep"), <<>>)), SLet(PId("x"), ps[2].t, EWit("E2"))>> \o Obs(ps[2].t, "r", "x")))>> ELSE <<>>
       s4 == IF n >= 4 THEN <<SExpr(Blk(<<SLet(PId("r"), ps[4].t, EParam(ps[4].n)), SLet(PId("x"), ps[4].t, EParam(ps[4].n))>> \o Obs(ps[4].t, "r", "x")))>> ELSE <<>>
-  IN (IF n >= 1 THEN loops ELSE <<>>) \o called \o unused \o <<Main(Blk(s0 \o s1 \o s2 \o s4))>>
+      \* a function written AFTER main (never callable from main) still contributes its param:: occurrences
+      late == IF n >= 3 THEN <<IFn("late", <<>>, <<ps[3].t>>, BlkE(<<>>, EParam(ps[3].n)))>> ELSE <<>>
+  IN (IF n >= 1 THEN loops ELSE <<>>) \o called \o (IF n = 3 THEN <<>> ELSE unused)
+     \o <<Main(Blk(s0 \o s1 \o s2 \o s4))>> \o (IF n = 3 THEN late ELSE <<>>)
 
 WDeclsOf(ps) == (IF Len(ps) >= 1 THEN <<<<"E1", ps[1].t>>>> ELSE <<>>) \o (IF Len(ps) >= 2 THEN <<<<"E2", ps[2].t>>>> ELSE <<>>)
 
